@@ -1225,6 +1225,12 @@ class Evaluator:
             g = tm.land(list(ex.guard))
             if g is not True and not seen_return:
                 fr.facts.append(tm.lnot(g))
+        rets = sub.returns()
+        if len(rets) == 1 and tm.land(list(rets[0].guard)) is True:
+            # a single unconditional return: whatever held at it holds after the call (e.g. for-all facts of loops)
+            for f in rets[0].facts:
+                if isinstance(f, T) and f.op == "forall" and not any(tm.veq(f, g0) for g0 in fr.facts):
+                    fr.facts.append(f)
         return sub.value()
 
     # ---- methods on values
